@@ -1054,6 +1054,8 @@ fn run_thread<R>(cx: &Cx, name: &'static str, f: impl FnOnce() -> R) -> R {
         }
     }
     let _fin = Finish(cx, Some(prev));
+    // the handle rotation is a function of the program alone, so a replay reads through the same handles
+    ROT.with(|c| c.set(cx.index as usize));
     check(cx, "thread-start");
     let r = f();
     ts(|t| {
@@ -1525,6 +1527,9 @@ fn run_program(r: &mut Report, seed: u64, index: u64, (min_ops, max_ops): (u64, 
         depth = depth.max(t.max_depth);
         for (k, n) in &t.counters {
             r.observe(k, *n);
+            if *k == "monitor-model-out-of-step" {
+                r.inconclusive("the monitor's own model stack was not where the interpreter expected it (monitor bug): this program proves nothing");
+            }
             if k.starts_with("nonlexical:") {
                 nonlexical += *n;
             }
